@@ -213,10 +213,30 @@ def unclaimed():
     return out
 
 
+# what rounds 10-11 added to the workloads (environment and scale), one sentence per check
+ADDED = {
+    "C02": " A history across interpreters (an application cached the package's bytecode, a literal is edited, the package regenerated) must send the edited document; targets holding another release's copies of the bundled files are regenerated.",
+    "C03": " Argument workloads include lists of 100+ input objects and integers beyond 2^53; generation may go into a target holding another release's copies of the bundled files.",
+    "C04": " Fixed scale cases (about 500 types chained through unions with the operation builder on), large documents, configurations passed with --config, and targets holding stale copies of the files to be written are part of every run.",
+    "C05": " Names the tree adds to its bundled BaseModel are required leaves of every object type in some cases.",
+    "C06": " Includes type extensions, deep wrapper types and keyword-named enum defaults on aliased fields.",
+    "C07": " A peer that drops the connection after reading the request, integers beyond 2^53 / 2^63 and stale bundled copies in the target are part of the workload.",
+    "C09": " Pruned packages are also written over an older pruned package made for other operations (post-dated files); a fixed input graph with 1000+ references is part of every run.",
+    "C10": " Every second case also regenerates over output whose every file was altered and post-dated.",
+    "C12": " Bodies include trees hundreds of levels deep, lists of thousands and long strings; the generated-method part generates into a target holding stale copies of the bundled files.",
+    "C15": " One plugin list per case is also generated over the unplugged package of the same inputs and compared byte-wise with a fresh generation.",
+    "C16": " Targets include upper-case .PY names; a tenth of the local cases generate in a separate interpreter under the C locale with UTF-8 mode off (ASCII file, non-ASCII content).",
+    "C17": " The invalid-operation catalogue includes a document with more than 100 validation errors.",
+    "C18": " The enumeration is extended by names of up to 257 characters (long runs of capitals, digits, underscores, many words); operation pairs that meet only after a naming plugin's hook are part of the pair cases.",
+    "C19": " Partition files include dot-named directories, CRLF and BOM files; the directory is named plainly, through `..`, below a hidden ancestor and absolutely; environment values may begin with `$`; type references go up to nine wrappers.",
+}
+
+
 def main():
     checks = []
     for pid in sorted(CHECKS):
-        c = CHECKS[pid]
+        c = dict(CHECKS[pid])
+        c["text"] = c["text"] + ADDED.get(pid, "")
         checks.append({
             "property_id": pid,
             "quick_cmd": "./check %s quick" % pid,
